@@ -260,6 +260,24 @@ def run_case(case, workdir):
                 if audit.inside(p, pa) or audit.inside(p, pb):
                     rec.fail("wrote_into_input", sub, "%s %s" % (e, p))
             shutil.rmtree(out, ignore_errors=True)
+    if case["forms"]:
+        import amr_kitchen.combine.cli as ccli
+        from ..common import run_cli
+        for v1, v2, sel in ((None, None, (None, None)), ("density temp", "Zvar,Z", (["density", "temp"], ["Zvar", "Z"])),
+                            ("temp,nope", "nope density Z", (["temp", "nope"], ["nope", "density", "Z"]))):
+            out = os.path.join(workdir, "out_cli")
+            shutil.rmtree(out, ignore_errors=True)
+            argv = ["combine", "-p1", pa, "-p2", pb, "-o", out] + (["-v1", v1] if v1 else []) + (["-v2", v2] if v2 else [])
+            with vpool.controlled():
+                st, val = run_cli(ccli.main, argv)
+            rec.exe([dh, "cli", v1, v2], nontrivial=True)
+            sub = {"argv": argv}
+            if st != "ok":
+                rec.fail("cli_failed", sub, "%s %s" % (st, val))
+                continue
+            pp = oracle.parse_output(rec, sub, out)
+            if pp is not None:
+                oracle.compare_contents(rec, sub, pp, ra.combine(rb, sel[0], sel[1]))
     if (tree_digest(pa), tree_digest(pb)) != before:
         rec.fail("input_modified", {}, "")
     rec.sample({"A": da, "B": db, "selections": [SELECTIONS[i] for i in case["sels"]]})
